@@ -20,7 +20,7 @@ def _clear_caches(ns_):
 PROPERTY = "C09"
 PL_OPS = ["evaluate", "evaluate_propositions", "assume", "reduce", "negate", "errors", "flatten", "to_json", "to_b64", "to_text", "to_short", "to_ge_polyhedron", "solve"]
 CFG_OPS = ["select", "add", "default_prios", "leafs", "ge_polyhedron", "to_json", "to_b64", "evaluate"]
-REGIONS = ["repeat-evaluate", "repeat-with-equal-hash-different-value", "prefixed-subproposition", "subclass-leaves", "history:add", "history:assume", "history:negate", "history:reduce", "history-cfg", "history-plog"] + ["op:" + o for o in PL_OPS] + ["cfg-op:" + o for o in CFG_OPS] + ["interpretation-names-compound-id", "interpretation-names-top-id", "cache-key-equal-possible"]
+REGIONS = ["repeat-with-the-same-dictionary-edited-in-place", "repeat-evaluate", "repeat-with-equal-hash-different-value", "prefixed-subproposition", "subclass-leaves", "history:add", "history:assume", "history:negate", "history:reduce", "history-cfg", "history-plog"] + ["op:" + o for o in PL_OPS] + ["cfg-op:" + o for o in CFG_OPS] + ["interpretation-names-compound-id", "interpretation-names-top-id", "cache-key-equal-possible"]
 BOUNDS = ("one call of each public operation from a freshly built model (PL family, <=7 compounds) or configurator (CFG family), with symbolic thresholds/signs/boxes "
           "where the operation does not cross the Rust encoder, and symbolic arguments: dictionaries over ALL ids (leaves, sub-propositions, the top id) with symbolic "
           "presence flags and values; a deep snapshot (class, id, generated flag, bounds, value, sign, prio, default, children) is compared before/after. "
@@ -69,6 +69,7 @@ def instantiations(tier, seed):
         for op in ("evaluate", "evaluate_propositions"):
             for form in ("int", "tuple"):
                 out.append({"part": "repeat", "kind_": "plog", "model": m, "op": op, "form": form})
+                out.append({"part": "repeat", "kind_": "plog", "model": m, "op": op, "form": form, "samedict": True})
     # call histories of length 3: warm-up queries on the object, then a deriving operation, then queries on the derived object and on the original
     hist_cfgs = cfg.cfg_family(tier, seed, n_quick=2, n_thorough=40)
     for k, c in enumerate(hist_cfgs if tier == "thorough" else hist_cfgs[:5] + hist_cfgs[-4:]):
@@ -262,8 +263,16 @@ def _repeat(ns, spec, run):
         S.HASH_MODE = "decided"
         try:
             f = getattr(m, op)
-            f(interp(x1))
-            out = f(interp(x2))
+            if spec.get("samedict"):
+                # the caller keeps ONE dictionary and edits it in place between the two calls
+                dct = interp(x1)
+                f(dct)
+                dct.clear()
+                dct.update(interp(x2))
+                out = f(dct)
+            else:
+                f(interp(x1))
+                out = f(interp(x2))
             r2 = out[m.id] if op == "evaluate_propositions" else out
         except Exception as e:    # noqa
             err = "%s: %s" % (type(e).__name__, e)
@@ -274,6 +283,8 @@ def _repeat(ns, spec, run):
     def on_path(ctx, d):
         run.path(ctx)
         run.region("repeat-evaluate")
+        if spec.get("samedict"):
+            run.region("repeat-with-the-same-dictionary-edited-in-place")
 
         def conc(mm):
             return {"env": {}, "x1": {k: (S.model_int(mm, v) if isinstance(v, S.SymInt) else v) for k, v in d["x1"].items()},
